@@ -34,6 +34,7 @@ import (
 	"math/big"
 	"math/rand"
 	"os"
+	"path/filepath"
 	"runtime"
 	"runtime/debug"
 	"sort"
@@ -416,6 +417,8 @@ type rig struct {
 	proof128  map[int]common.Hash128
 	vote128   map[voteKey]common.Hash128
 	ids       map[common.Address]int
+	badProp   map[int]badProposal
+	byz       map[int]bool
 	out       *tr.W
 	caseId    int
 	forgedSeq int
@@ -453,7 +456,7 @@ func (bs *base) newRig(k int, out *tr.W, caseId int) *rig {
 	w := bs.w
 	w.Use()
 	r := &rig{bs: bs, sn: sn, out: out, caseId: caseId, codes: map[common.Hash]int{}, blockOf: map[int]common.Hash{}, block128: map[int]common.Hash128{},
-		proof128: map[int]common.Hash128{}, vote128: map[voteKey]common.Hash128{}, ids: map[common.Address]int{}}
+		proof128: map[int]common.Hash128{}, vote128: map[voteKey]common.Hash128{}, ids: map[common.Address]int{}, badProp: map[int]badProposal{}, byz: map[int]bool{}}
 	boot := func(key int) *sim.Node {
 		n := w.Boot(key, sim.CopyDB(sn.db), nil)
 		if n.BootErr != nil {
@@ -664,7 +667,7 @@ func (r *rig) commitEvent(b *bnode) {
 	}
 	m["proposer"] = prop
 	cert := b.n.Chain.GetCertificate(hash)
-	cm := tr.M{"s": 0, "v": -1, "round": 0, "voters": []int{}, "sigs": 0, "present": 0}
+	cm := tr.M{"s": 0, "v": -1, "round": 0, "voters": []int{}, "sigs": 0, "present": 0, "appr": []int{}, "req": 0}
 	accO, accS := 0, 0
 	if cert != nil {
 		cm["present"] = 1
@@ -680,6 +683,20 @@ func (r *rig) commitEvent(b *bnode) {
 		}
 		sort.Ints(voters)
 		cm["voters"] = voters
+		// the validator view the certificate has to satisfy: the committee of its step as a node on the previous head
+		// derives it (real GetOnlineValidators / thresholds of the witness)
+		wvc := r.witness.App.ValidatorsCache
+		if sv := wvc.GetOnlineValidators(r.head.Seed(), r.round, cert.Step, r.witness.Chain.GetCommitteeSize(wvc, cert.Step == types.Final)); sv != nil {
+			appr := []int{}
+			for a, id := range r.ids {
+				if sv.Approved(a) {
+					appr = append(appr, id)
+				}
+			}
+			sort.Ints(appr)
+			cm["appr"] = appr
+			cm["req"] = r.witness.Chain.GetCommitteeVotesThreshold(wvc, cert.Step == types.Final) - sv.VotesCountSubtrahend(r.witness.Cfg.Consensus.AgreementThreshold)
+		}
 		// through the wire codec, judged by a node that took no part in the round
 		wire := new(types.BlockCert)
 		if data, err := cert.ToBytes(); err == nil && wire.FromBytes(data) == nil {
@@ -863,6 +880,10 @@ func (r *rig) deliverVote(key voteKey, to *bnode, rng *rand.Rand) {
 		r.emit(m)
 		return
 	}
+	if r.byz[key.w] {
+		r.byzVote(key, to)
+		return
+	}
 	h, ok := r.vote128[key]
 	if !ok {
 		m["ev"], m["why"] = "Skip", "not-cast"
@@ -886,6 +907,44 @@ func (r *rig) deliverVote(key voteKey, to *bnode, rng *rand.Rand) {
 	if why != "" {
 		m["ev"] = "Skip"
 	}
+	r.emit(m)
+}
+
+// byzVote: a member that does not run the protocol signs a vote of this round and head for whatever the schedule
+// wants and shows it to `to` (a genuine vote of a committee member: it counts; showing other nodes another vote of the
+// same step is equivocation).
+func (r *rig) byzVote(key voteKey, to *bnode) {
+	m := tr.M{"ev": "Deliver", "t": "vote", "n": to.id, "p": 0, "w": key.w, "s": key.s, "v": key.v, "forged": "", "from": key.w, "why": "", "acc": 0}
+	hash := r.empty
+	if key.v != 0 {
+		bh, ok := r.blockOf[key.v]
+		if !ok {
+			m["ev"], m["why"] = "Skip", "no-block"
+			r.emit(m)
+			return
+		}
+		hash = bh
+	}
+	if to.late() || to.id == key.w {
+		m["ev"], m["why"] = "Skip", "late"
+		r.emit(m)
+		return
+	}
+	vote := &types.Vote{Header: &types.VoteHeader{Round: r.round, Step: uint8(key.s), ParentHash: r.head.Hash(), VotedHash: hash}}
+	sh := crypto.SignatureHash(vote)
+	sig, err := crypto.Sign(sh[:], r.bs.w.Keys[r.sn.order[key.w-1]])
+	if err != nil {
+		fatal("sign: %v", err)
+	}
+	vote.Signature = sig
+	if err := to.peers[key.w].HandleFrame(protocol.VerifMakeVoteFrame(vote)); err != nil {
+		m["why"] = err.Error()
+	}
+	to.observe()
+	wire := new(types.Vote)
+	data, _ := vote.ToBytes()
+	wire.FromBytes(data)
+	m["acc"] = btoi(r.hasVote(to, wire.Hash()))
 	r.emit(m)
 }
 
@@ -948,6 +1007,44 @@ func (r *rig) forgedVote(kind string, w, s, v int, to *bnode) {
 	r.emit(m)
 }
 
+// ineligibleProposal: node x, whose sortition did NOT pass, proposes anyway - a real block built by its own chain, the
+// real VRF proof of its key (below the threshold), real signatures - and the proposal reaches node `to`.  Nothing of it
+// may be kept: a block of a non-proposer must never become a candidate.
+func (r *rig) ineligibleProposal(x, to *bnode) {
+	if x.id == to.id || x.id > r.bs.N-r.sn.k {
+		return
+	}
+	bp, ok := r.badProp[x.id]
+	if !ok {
+		data := append(r.head.Seed().Bytes(), common.ToBytes(blockchain.ProposerRole)...)
+		data = append(data, common.ToBytes(r.round)...)
+		_, proof := x.n.Sec.VrfEvaluate(data)
+		bp.block = x.n.Chain.ProposeBlock(proof)
+		bp.proof = &types.ProofProposal{Proof: proof, Round: r.round}
+		h := crypto.SignatureHash(bp.proof)
+		bp.proof.Signature = x.n.Sec.Sign(h[:])
+		r.badProp[x.id] = bp
+		r.codes[bp.block.Hash()] = x.id
+	}
+	m := tr.M{"ev": "Deliver", "t": "block", "n": to.id, "p": x.id, "w": 0, "s": 0, "v": 0, "forged": "ineligible", "from": x.id, "why": ""}
+	if err := to.peers[x.id].HandleFrame(protocol.VerifMakeProofProposalFrame(bp.proof)); err != nil {
+		m["why"] = err.Error()
+	}
+	if err := to.peers[x.id].HandleFrame(protocol.VerifMakeBlockProposalFrame(bp.block)); err != nil {
+		m["why"] = err.Error()
+	}
+	to.observe()
+	_, err := to.props.GetBlockByHash(r.round, bp.block.Hash())
+	m["stored"] = btoi(err == nil)
+	m["best"] = r.bestOf(to)
+	r.emit(m)
+}
+
+type badProposal struct {
+	block *types.BlockProposal
+	proof *types.ProofProposal
+}
+
 // fetch: the node asked its peers for a block by hash (getBlockByHash); `from` answers if it has it.
 func (r *rig) fetch(b *bnode, from *bnode) {
 	m := tr.M{"ev": "Fetch", "n": b.id, "from": from.id, "got": 0}
@@ -1007,6 +1104,7 @@ type tcase struct {
 	Sched    []act  `json:"sched"`
 	Random   int64  `json:"random"` // != 0: generate the schedule with this seed while running
 	Drain    string `json:"drain"`  // after the schedule: "timeout" (default) | "sync"
+	Byz      []int  `json:"byz"`    // members that never run: the harness signs whatever votes the schedule wants with their keys
 }
 
 const maxReleases = 64
@@ -1019,7 +1117,7 @@ func (r *rig) node(id int) *bnode {
 }
 
 func (r *rig) start(b *bnode) {
-	if b.state != "idle" {
+	if b.state != "idle" || r.byz[b.id] {
 		return
 	}
 	r.emit(tr.M{"ev": "Start", "n": b.id})
@@ -1084,8 +1182,8 @@ func (r *rig) apply(a act, rng *rand.Rand) {
 		if b.state == "getblock" {
 			r.timeoutPhase(b)
 		}
-	case "Cast", "Commit", "End":
-		// performed by the node itself
+	case "Cast", "Commit", "End", "ByzVote":
+		// performed by the node itself (an equivocator's vote is signed when it is delivered)
 	default:
 		fatal("unknown schedule action %q", a.A)
 	}
@@ -1097,6 +1195,7 @@ func (r *rig) drain() {
 		busy := false
 		for _, b := range r.nodes {
 			switch {
+			case r.byz[b.id]:
 			case b.state == "idle":
 				r.start(b)
 				busy = true
@@ -1125,7 +1224,7 @@ func (r *rig) drain() {
 func (r *rig) drainSync(rng *rand.Rand) {
 	for round := 0; round < 400; round++ {
 		for _, b := range r.nodes {
-			if b.state == "idle" {
+			if b.state == "idle" && !r.byz[b.id] {
 				r.start(b)
 			}
 		}
@@ -1200,6 +1299,15 @@ func (r *rig) deliverFrame(a, to *bnode, f *protocol.VerifFrame) {
 			key := voteKey{r.idOf(v.VoterAddr()), int(v.Header.Step), r.code(v.Header.VotedHash)}
 			if h, ok := r.vote128[key]; ok && h == f.Hash {
 				r.deliverVote(key, to, nil)
+				return
+			}
+			if r.byz[key.w] && v.Header.ParentHash == r.head.Hash() && key.v >= 0 && key.v != 99 && v.Header.Upgrade == 0 && !to.late() {
+				// an equivocator's vote relayed by an honest node that accepted it
+				why := r.transfer(a, to, protocol.VerifPushVote, f.Hash)
+				if why == "" {
+					r.emit(tr.M{"ev": "Deliver", "t": "vote", "n": to.id, "p": 0, "w": key.w, "s": key.s, "v": key.v, "forged": "", "from": a.id,
+						"why": "", "acc": btoi(r.hasVote(to, v.Hash()))})
+				}
 				return
 			}
 		}
@@ -1300,7 +1408,7 @@ func (r *rig) randomRun(rng *rand.Rand) {
 	pTimeout := []float64{0.05, 0.15, 0.4}[rng.Intn(3)]
 	late := rng.Intn(3) == 0 // one node starts late
 	for _, b := range r.nodes {
-		if !(late && b.id == 1) {
+		if !(late && b.id == 2) {
 			r.start(b)
 		}
 	}
@@ -1308,7 +1416,7 @@ func (r *rig) randomRun(rng *rand.Rand) {
 	for it := 0; it < 600; it++ {
 		var live []*bnode
 		for _, b := range r.nodes {
-			if b.alive() || b.state == "idle" {
+			if (b.alive() || b.state == "idle") && !r.byz[b.id] {
 				live = append(live, b)
 			}
 		}
@@ -1343,6 +1451,29 @@ func (r *rig) randomRun(rng *rand.Rand) {
 					r.deliverFrame(a, b, &f)
 				}
 			}
+		}
+		if len(r.byz) > 0 && rng.Intn(3) == 0 {
+			// the equivocator shows this node a vote of the step it counts (or will count first), for any candidate
+			z := 0
+			for id := range r.byz {
+				z = id
+			}
+			s := int(types.ReductionOne)
+			if b.state == "countpoll" && b.curStep != 0 {
+				s = b.curStep
+			}
+			v := 0
+			if rng.Intn(2) == 0 {
+				for p := 1; p <= N; p++ {
+					if _, ok := r.blockOf[p]; ok && rng.Intn(2) == 0 {
+						v = p
+					}
+				}
+			}
+			r.byzVote(voteKey{z, s, v}, b)
+		}
+		if rng.Float64() < pForge && (b.state == "sortwait" || b.state == "blockpoll") {
+			r.ineligibleProposal(r.nodes[rng.Intn(N)], b)
 		}
 		if rng.Float64() < pForge {
 			if r.probe(b, rng, forgeKinds) {
@@ -1423,6 +1554,19 @@ func main() {
 	parts := flag.Int("parts", 1, "number of parts")
 	verbose := flag.Bool("v", false, "progress on stderr")
 	flag.Parse()
+	// the repository's constructors litter the working directory: every driver process works in its own
+	if *parts > 1 {
+		wd := fmt.Sprintf("d_ba_part%d", *part)
+		if err := os.MkdirAll(wd, 0o755); err == nil {
+			if abs, err := filepath.Abs(*outPath); err == nil {
+				*outPath = abs
+			}
+			if abs, err := filepath.Abs(*casesPath); err == nil {
+				*casesPath = abs
+			}
+			os.Chdir(wd)
+		}
+	}
 	pushpull.VerifHook = trackerHook
 	seed := tr.Seed()
 	out := tr.Create(*outPath)
@@ -1449,13 +1593,20 @@ func main() {
 		epoch++
 		epochMu.Unlock()
 		r := bs.newRig(c.K, out, idx)
+		byz := []int{}
+		for _, z := range c.Byz {
+			if z >= 1 && z <= c.N-c.K {
+				r.byz[z] = true
+				byz = append(byz, z)
+			}
+		}
 		T := r.witness.Chain.GetCommitteeVotesThreshold(r.witness.App.ValidatorsCache, false)
 		TF := r.witness.Chain.GetCommitteeVotesThreshold(r.witness.App.ValidatorsCache, true)
 		props := []int{}
 		for id := c.N - c.K + 1; id <= c.N; id++ {
 			props = append(props, id)
 		}
-		r.emit(tr.M{"ev": "Reset", "N": c.N, "T": T, "TF": TF, "maxsteps": c.MaxSteps, "props": props, "src": c.Src, "kind": c.Kind,
+		r.emit(tr.M{"ev": "Reset", "N": c.N, "T": T, "TF": TF, "maxsteps": c.MaxSteps, "props": props, "byz": byz, "src": c.Src, "kind": c.Kind,
 			"committee": r.witness.App.ValidatorsCache.ValidatorsSize()})
 		var rng *rand.Rand
 		if c.Random != 0 {
